@@ -85,7 +85,7 @@ pub fn run(run: &Run) {
          (is c treated as a space iff it is Zs in UnicodeData 16.0.0?), (d) proptest strings mixing all Zs with pool characters; \
          each through Rules::additional_mapping_rule of Nickname and OpaqueString. Oracle: map/split/join model over my own parse of \
          UnicodeData 16.0.0, plus idempotence. Non-trivial: the mapping changes the string and a multi-byte non-space character \
-         stands before the last space; distinct = distinct (profile,input). Plus the deterministic long-input / call-order batteries of DESIGN.md 8.1 that apply to this property (alignment sweeps 0..72 and around 128..65536 bytes, runs and exact counts, sandwiches and multi-megabyte inputs, exhaustive pair sets, plane/byte aliases, hash-colliding pairs back to back, owned arguments with spare capacity); each battery is a finite list enumerated completely and appears as its own section in 'sections'.",
+         stands before the last space; distinct = distinct (profile,input). Plus the deterministic long-input / call-order batteries of DESIGN.md 8.1 and 8.2 that apply to this property (extreme scale, mark neighbours, distinct runs with repeats, environment children, thread lifetime, concurrent distinct inputs; alignment sweeps 0..72 and around 128..65536 bytes, runs and exact counts, sandwiches and multi-megabyte inputs, exhaustive pair sets, plane/byte aliases, hash-colliding pairs back to back, owned arguments with spare capacity); each battery is a finite list enumerated completely and appears as its own section in 'sections'.",
     );
     run.assume("Zs membership is taken from /verif/data/ucd16/UnicodeData.txt (pinned copy, SHA256 checked)");
     let profs = [Prof::Nick, Prof::Opaque];
